@@ -1,0 +1,150 @@
+//go:build verif
+
+package collection
+
+import (
+	"encoding/json"
+	"errors"
+	"runtime"
+	"sort"
+	"time"
+
+	"github.com/gotid/god/lib/mathx"
+	"github.com/gotid/god/lib/timex"
+)
+
+// kind "cache": a Cache whose expiry wheel runs on a fake ticker and whose expiry jitter comes
+// from a scripted source (one scripted draw per call).
+
+type verifSrc struct{ next int64 }
+
+func (s *verifSrc) Int63() int64 { return s.next }
+func (s *verifSrc) Seed(int64)   {}
+
+type verifCacheCall struct {
+	Op     string `json:"op"` // set | setx | get | del | take | tick
+	Key    string `json:"key"`
+	Val    int    `json:"val"`
+	Expire int64  `json:"expire"` // setx: nanoseconds
+	Fail   bool   `json:"fail"`   // take: the fetch function fails
+	Draw   int64  `json:"draw"`   // the Int63 the jitter source returns during this call
+}
+
+type verifCacheCase struct {
+	Expire int64            `json:"expire"` // nanoseconds
+	Limit  int              `json:"limit"`
+	Phase  int              `json:"phase"` // ticks delivered to the wheel before the first call
+	Calls  []verifCacheCall `json:"calls"`
+}
+
+type verifCacheObs struct {
+	Found   bool     `json:"found"`   // get/take: a value was returned
+	Val     int      `json:"val"`     // get/take: the value
+	Err     bool     `json:"err"`     // take: error returned
+	Fetched bool     `json:"fetched"` // take: the fetch function ran
+	Jit     int64    `json:"jit"`     // the jittered duration AroundDuration yields for this call's draw
+	Keys    []string `json:"keys"`    // sorted keys of the data map after the call has settled
+}
+
+func verifCache(raw json.RawMessage) any {
+	var c verifCacheCase
+	if err := json.Unmarshal(raw, &c); err != nil {
+		return map[string]any{"error": err.Error()}
+	}
+	n0 := runtime.NumGoroutine()
+	cache, err := NewCache(time.Duration(c.Expire), WithLimit(c.Limit))
+	if err != nil {
+		return map[string]any{"error": err.Error()}
+	}
+	// swap the real-time wheel for one on a fake ticker (same callback), and the jitter source
+	old := cache.timingWheel
+	exec := old.execute
+	old.Stop()
+	verifSettle(n0 + 1) // the old wheel's loop has exited; the statistics goroutine stays
+	ticker := timex.NewFakeTicker()
+	wheel, err := newTimingWheelWithClock(time.Second, slots, exec, ticker)
+	if err != nil {
+		return map[string]any{"error": err.Error()}
+	}
+	cache.timingWheel = wheel
+	src := &verifSrc{}
+	cache.unstableExpiry = mathx.VerifNewUnstable(expiryDeviation, src)
+	probeSrc := &verifSrc{}
+	probe := mathx.VerifNewUnstable(expiryDeviation, probeSrc)
+
+	base := n0 + 2
+	timeouts := 0
+	barrier := func() { _ = wheel.MoveTimer(verifBarrierKey, time.Second) }
+	tick := func() {
+		ticker.Tick()
+		if !verifTickConsumed(ticker) {
+			timeouts++
+		}
+		barrier()
+		if !verifSettle(base) {
+			timeouts++
+		}
+	}
+	for i := 0; i < c.Phase; i++ {
+		tick()
+	}
+	keys := func() []string {
+		cache.lock.Lock()
+		out := make([]string, 0, len(cache.data))
+		for k := range cache.data {
+			out = append(out, k)
+		}
+		cache.lock.Unlock()
+		sort.Strings(out)
+		return out
+	}
+	asInt := func(v any) int {
+		i, _ := v.(int)
+		return i
+	}
+	obs := make([]verifCacheObs, 0, len(c.Calls))
+	for _, call := range c.Calls {
+		o := verifCacheObs{}
+		src.next = call.Draw
+		probeSrc.next = call.Draw
+		switch call.Op {
+		case "set":
+			o.Jit = int64(probe.AroundDuration(time.Duration(c.Expire)))
+			cache.Set(call.Key, call.Val)
+		case "setx":
+			o.Jit = int64(probe.AroundDuration(time.Duration(call.Expire)))
+			cache.SetWithExpire(call.Key, call.Val, time.Duration(call.Expire))
+		case "get":
+			v, ok := cache.Get(call.Key)
+			o.Found, o.Val = ok, asInt(v)
+		case "del":
+			cache.Del(call.Key)
+		case "take":
+			o.Jit = int64(probe.AroundDuration(time.Duration(c.Expire)))
+			v, err := cache.Take(call.Key, func() (any, error) {
+				o.Fetched = true
+				if call.Fail {
+					return nil, errors.New("fetch failed")
+				}
+				return call.Val, nil
+			})
+			o.Err = err != nil
+			o.Found, o.Val = err == nil, asInt(v)
+		case "tick":
+			ticker.Tick()
+			if !verifTickConsumed(ticker) {
+				timeouts++
+			}
+		}
+		barrier()
+		if !verifSettle(base) {
+			timeouts++
+		}
+		o.Keys = keys()
+		obs = append(obs, o)
+	}
+	wheel.Stop()
+	<-ticker.Chan()
+	verifSettle(base - 1)
+	return map[string]any{"obs": obs, "timeouts": timeouts}
+}
